@@ -28,6 +28,26 @@ def runtime_half(rep, tier):
                 opname = m.group(1) if m else "?"
                 cls = "payload dropped by conversion DiplomatResult->Result" if (opname == "IntoStd" and "reference model expects []" in v["why"]) else re.sub(r"[0-9]+", "N", v["why"].split(":", 1)[-1])[:80]
                 rep.violation("C03r|%s|%s" % (opname, cls), v, "history %s (%s): %s" % (v["hist"], v["family"], v["why"]))
+    # ---- argument buffers (diplomat_alloc / diplomat_free), natively and - thorough - under miri
+    alloc = {}
+    pa = subprocess.run([binp, "c03-alloc", "31"], stdout=subprocess.PIPE, stderr=subprocess.PIPE, text=True, timeout=600)
+    if pa.returncode != 0:
+        rep.violation("C03r|alloc|crash", {"rc": pa.returncode, "stderr": pa.stderr[-3000:]},
+                      "allocating and releasing argument buffers through diplomat_alloc / diplomat_free crashed (invalid free)")
+    else:
+        aj = json.loads(pa.stdout.strip().splitlines()[-1])
+        alloc = {"histories": aj["histories"]}
+        if aj["violation"]:
+            rep.violation("C03r|alloc|" + re.sub(r"[0-9]+", "N", aj["violation"])[:60], aj, aj["violation"])
+    if tier == "thorough" and not rep.violations:
+        ma = _miri(["c03-alloc", "9"])
+        if ma["rc"] != 0:
+            if "Undefined Behavior" in ma["stderr"] or "memory leaked" in ma["stderr"]:
+                rep.violation("C03r|alloc|miri", {"stderr": ma["stderr"][-3000:]}, "miri reports UB/leak in an alloc/free history of argument buffers")
+            else:
+                raise MachineryError("miri run failed: " + ma["stderr"][-2000:])
+        else:
+            alloc["miri_histories"] = json.loads(ma["stdout"].strip().splitlines()[-1])["histories"]
     miri = None
     if tier == "thorough" and not rep.violations:
         miri = _miri(["c03-dfs", "3", "2"])
@@ -43,8 +63,9 @@ def runtime_half(rep, tier):
             miri = {"transitions": mj["transitions"], "cmd": miri["cmd"]}
     return {
         "states": sum(f["states"] for f in fams),
-        "transitions": sum(f["transitions"] for f in fams),
+        "transitions": sum(f["transitions"] for f in fams) + alloc.get("histories", 0),
         "families": fams,
+        "alloc_free_histories": alloc,
         "bound": {"depth": depth, "max_cells": cells},
         "miri": miri,
     }
@@ -80,6 +101,7 @@ def run(tier):
             {"runtime_history": "[MakeSlice(3), Mutate(0), IntoStd(0), Drop(0)]", "payload": "struct{Vec<Counter>,u8}"},
             {"runtime_history": "[MakeCb(true), Observe(0), Drop(0)]", "expect": "destructor exactly once"},
         ] + ((gen or {}).get("samples") or []),
+        "alloc_free_histories": rt.get("alloc_free_histories"),
     }
     return rep.finish(cov, [
         "payload identity is observed through Drop impls logging to a thread-local log",
